@@ -712,6 +712,94 @@ def monitor_divergence(ctx, n):
         pass
 
 
+def stubborn_class():
+    from pandapower.control.basic_controller import Controller
+
+    class Stubborn(Controller):
+        """a net-owned controller that never converges while it is armed (or in the time steps of bad_steps)"""
+        def __init__(self, net, bad_steps=(), **kw):
+            super().__init__(net, **kw)
+            self.bad_steps, self.armed, self.t = set(bad_steps), False, None
+
+        def time_step(self, net, time):
+            self.t = time
+
+        def is_converged(self, net):
+            return not (self.armed or self.t in self.bad_steps)
+
+        def control_step(self, net):
+            pass
+    return Stubborn
+
+
+def monitor_aborted_then_rerun(ctx, n):
+    """a control run that is ABORTED (a net-owned controller does not converge within max_iter, or a member diverges
+    with continue_on_divergence=True) followed by a further run on the same multinet with changed inputs: every written
+    cell must follow the formula with the NEW inputs and every member must equal its stand-alone calculation"""
+    import pandapipes
+    from pandapipes.multinet.control.run_control_multinet import run_control
+    rng = ctx.rng
+    items = []
+    for it in range(n):
+        kind = ["power_gas", "gas_gas", "all"][it % 3]
+        how = ["controller", "divergence"][it % 2]
+        try:
+            mn, nets, cps, desc = scenario(ctx, kind)
+            stub = stubborn_class()(nets["gas"], order=9, level=max(desc["levels"]))
+            run_control(mn)
+        except Exception as e:
+            ctx.note("aborted-run monitor: set-up run failed with %s (skipped)" % type(e).__name__)
+            continue
+        aborted = None
+        try:
+            if how == "controller":
+                stub.armed = True
+                run_control(mn, max_iter=2)
+            else:
+                victim = nets["gas"]
+                bad = pandapipes.create_sink(victim, victim.junction.index[-1], 1e7)
+                cv = {"nets": {n_: {"continue_on_divergence": True} for n_ in nets}}
+                try:
+                    run_control(mn, ctrl_variables=cv)
+                finally:
+                    victim.sink.drop(index=bad, inplace=True)
+                    if "res_sink" in victim and bad in victim.res_sink.index:
+                        victim.res_sink.drop(index=bad, inplace=True)
+        except Exception as e:
+            aborted = type(e).__name__
+        finally:
+            stub.armed = False
+        ctx.count("aborted_run_%s_%s" % (how, aborted or "not_aborted"))
+        if aborted is None:
+            continue
+        # new inputs for every coupling
+        for cp in cps:
+            rn, rt, ridx = cp["read"]
+            for ri in ridx:
+                nets[rn][rt].at[ri, VALUE_COL[rt]] = float(nets[rn][rt].at[ri, VALUE_COL[rt]]) * rng.choice([0.5, 0.75, 1.5])
+        try:
+            run_control(mn)
+        except Exception as e:
+            ctx.count("rerun_after_abort_failed_" + type(e).__name__)
+            ctx.note("run after an aborted run raised %s (skipped)" % type(e).__name__)
+            continue
+        d = {"scenario": desc["kind"], "fluids": desc["fluids"], "levels": desc["levels"], "orders": desc["orders"],
+             "history": "run_control ok; run_control aborted by %s (%s); inputs changed; run_control" % (how, aborted)}
+        ctx.case(dict(d, couplings=len(cps)), True)
+        items += written_items(nets, cps, d)
+        for n_, net in nets.items():
+            try:
+                diff = same_bits(res_tables(net), res_tables(standalone(net)))
+            except Exception as e:
+                diff = "stand-alone run failed: %r" % e
+            if diff:
+                ctx.violation({"fn": "run_control", "clause": "after_run_is_standalone", "needs": "previous run aborted",
+                               "net_kind": type(net).__name__},
+                              "after an aborted run (%s: %s) and a further run_control, member %s differs from a stand-alone "
+                              "calculation with the written values: %s" % (how, aborted, n_, diff), d)
+    return items
+
+
 def monitor_init_any(ctx):
     """net_initialization_multinet combines the initial-run flags with max: a multinet without in-service controller
     whose power member ends its initial run not converged (tolerant run function) is reported converged"""
@@ -792,14 +880,20 @@ def monitor_timeseries(ctx, n):
             ds = DFData(prof)
         coupled_g2p_const_control(mn, 1, 1, g2p_efficiency=eta2, element_type_power="sgen", profile_name="g2p",
                                   data_source=ds, power_led=led)
+        abort_step = it % 4 >= 2
+        if abort_step:      # time step 1 is aborted (controller not converged); step 2 must be unaffected
+            stubborn_class()(nets["power"], bad_steps=[1], order=5, level=0)
         try:
-            run_timeseries(mn, time_steps=range(steps), output_writers=None, verbose=False)
+            run_timeseries(mn, time_steps=range(steps), output_writers=None, verbose=False,
+                           continue_on_divergence=abort_step, max_iter=3 if abort_step else 30)
         except TypeError:
-            run_timeseries(mn, time_steps=range(steps))
+            run_timeseries(mn, time_steps=range(steps), continue_on_divergence=abort_step)
         except Exception as e:
             ctx.note("run_timeseries raised %s (skipped)" % type(e).__name__)
             continue
-        d = {"scenario": "timeseries", "fluids": [fl], "levels": "default", "orders": "default"}
+        d = {"scenario": "timeseries" + ("_with_aborted_step" if abort_step else ""), "fluids": [fl], "levels": "default",
+             "orders": "default"}
+        ctx.count("timeseries_aborted_step" if abort_step else "timeseries_plain")
         g2p_cell = nets["power"].sgen.at[1, "p_mw"] if led else nets["gas"].sink.at[1, "mdot_kg_per_s"]
         ok_prof = float(nets["power"].load.at[0, "p_mw"]) == float(prof["p2g"].iloc[-1]) and \
             float(g2p_cell) == float(prof["g2p"].iloc[-1])
@@ -864,8 +958,9 @@ def run(ctx):
     except Exception:
         import traceback
         ctx.broken("harness", "bookkeeping correspondence", traceback.format_exc()[-1200:])
-    for name, fn, n in (("run_control", monitor_multinets, 9 if ctx.quick else 300),
-                        ("timeseries", monitor_timeseries, 4 if ctx.quick else 30)):
+    for name, fn, n in (("run_control", monitor_multinets, 8 if ctx.quick else 300),
+                        ("aborted_then_rerun", monitor_aborted_then_rerun, 4 if ctx.quick else 60),
+                        ("timeseries", monitor_timeseries, 4 if ctx.quick else 32)):
         try:
             check_written(ctx, fn(ctx, n), name)
         except Exception:
